@@ -5,7 +5,8 @@ class C05(Prop):
     ID = "C05"
     THEOREMS = ["C05_search_tree_eq_scan", "C05_build_ok", "C05_search_built_eq_scan", "C05_build_empty",
                 "C05_dec_enc_le", "C05_read_leaf", "C05_read_inner", "C05_search_represented",
-                "C05_chunks_all_but_last_full", "C05_built_shape", "C05_layout_represents", "C05_search_bytes_eq_scan"]
+                "C05_chunks_all_but_last_full", "C05_built_shape", "C05_layout_represents", "C05_search_bytes_eq_scan",
+                "C05_search_bytes_widen", "C05_scan_widen_refilter"]
     RULE = ("exhaustive over block counts n and fan-outs b (quick n<=40,b<=5; thorough n<=120 plus sizes around b^k up to 700, b<=9), "
             "three section layouts (one chromosome monotone ends, several chromosomes, non-monotone ends as in bigBed), plus 130-1030 chromosomes with 1-2 blocks each under fan-outs 2..256, "
             "queries starting/ending on every chosen section boundary and one base either side; a public-API stage (real writer and reader, short reads, zoom query before each main query on the same reader, every query answered by a plain and by a caching reader in the same order); "
